@@ -10,7 +10,9 @@
 (*      file) | "noext" | "dangling" (unreadable: dangling symlink, .xml)    *)
 (*      | "linkxml" (a symbolic link named *.xml to a well-formed XML file   *)
 (*      elsewhere: an input like any other) | "stdinxml" (the argument "-":  *)
-(*      well-formed XML on standard input; needs -t, never prefixed)         *)
+(*      well-formed XML on standard input; needs -t, never prefixed) | "svg" *)
+(*      (well-formed XML in a .svg file: media type image/svg+xml - the type *)
+(*      is found in the media type, not only in its subtype)                 *)
 (* Flags: a m n r : BOOLEAN, t : "" | "xml" | "json" | "html", e : BOOLEAN   *)
 (*      (-e foo=bar), u : BOOLEAN (-u: non-strict XML decoding),             *)
 (*      q : "ns" | "empty" | "num" (the kind of query given)                 *)
@@ -28,13 +30,13 @@ RECURSIVE Under(_, _, _)
 Under(tree, i, fuel) == IF tree[i].in = 0 \/ fuel = 0 THEN FALSE ELSE TRUE
 \* a directory is descended only with -r; without it the directory argument is reported and skipped
 Visited(tree, fl, i) == tree[i].in = 0 \/ fl.r
-ExtType(cls) == CASE cls \in {"xml", "xmlbad", "xmlent", "dangling", "linkxml"} -> "xml" [] cls = "json" -> "json" [] cls = "html" -> "html" [] OTHER -> "none"
+ExtType(cls) == CASE cls \in {"xml", "xmlbad", "xmlent", "dangling", "linkxml", "svg"} -> "xml" [] cls = "json" -> "json" [] cls = "html" -> "html" [] OTHER -> "none"
 ParseType(fl, cls) == IF fl.t # "" THEN fl.t ELSE ExtType(cls)
 \* does the content parse under the chosen type?  ("unk": not determined - e.g. JSON text read as XML)
 Parses(fl, cls, pt) ==
   CASE cls = "dangling" -> "no"
     [] pt = "none" -> "no"
-    [] cls \in {"xml", "linkxml", "stdinxml"} -> IF pt = "xml" THEN "yes" ELSE "unk"
+    [] cls \in {"xml", "linkxml", "stdinxml", "svg"} -> IF pt = "xml" THEN "yes" ELSE "unk"
     [] cls = "xmlbad" -> IF pt = "xml" THEN (IF fl.u THEN "unk" ELSE "no") ELSE "unk"      \* what a lenient decoder makes of it is not specified
     [] cls = "xmlent" -> IF pt = "xml" THEN (IF fl.e \/ fl.u THEN "yes" ELSE "no") ELSE "unk" \* lenient: the reference stays literal unless -e binds it
     [] cls \in {"json", "txtjson"} -> IF pt = "json" THEN "yes" ELSE "unk"
